@@ -27,7 +27,8 @@ EXPLANATION = ("map() is executed symbolically (real Array/Vector/VectorBasis co
                "and its prange loop is checked for write conflicts: two cells write the same pixel only when both contain the "
                "sample point, i.e. on a shared face, which the statement allows.")
 TRUSTED = ["numpy / pint / numba stubs (pyvc/stubs)", "matplotlib not involved (plot=False)"]
-ASSUMPTIONS = ["vector layers whose unit is dimensionless-compatible (cm/m) are excluded from the deductive units: recorded finding, bounded native case",
+ASSUMPTIONS = ["dx omitted: the kernel's call-site precondition (positive depth spacing) is not proved; bounded native sweep covers omitted dx",
+               "vector layers whose unit is dimensionless-compatible (cm/m) are excluded from the deductive units: recorded finding, bounded native case",
                "real arithmetic for floats: 'within rounding' at cell faces is not modelled; exact face points may take either cell",
                "non-overlap of cells is not needed: the pixel shows A loaded cell containing the point"]
 
@@ -111,6 +112,18 @@ class MapRun:
                 self.chain.append((mask, count, sel))
                 size = count
         self.nsel = size
+        self.auto_facts = []
+        if self.win is None:
+            # window derived from the selected cells' extents: it is non-degenerate because the first selected cell has a
+            # positive size (amin <= element <= amax instantiated at row 0)
+            reds = [r for r in core.cur().counter.get("@redfacts", [])]
+            core.assume(SV.lift(self.dxc._array.elem((self.sigma(0),))) > 0)
+            snp.minmax_elim(0)
+            for lo, hi in zip(reds[0::2], reds[1::2]):
+                if lo[0] == "amin" and hi[0] == "amax":
+                    fact = SV.lift(hi[1]) - SV.lift(lo[1]) > 0
+                    prove("window.derived_extent_positive[%d]" % len(self.auto_facts), fact)
+                    self.auto_facts.append(fact)
 
     # ---- vocabulary ------------------------------------------------------------------
     def sigma(self, r):
@@ -154,7 +167,7 @@ class MapRun:
             fs.append(self.uw.scale > 0)
         if self.win is not None:
             fs.append(self.win.magnitude > 0)
-        return fs
+        return fs + list(self.auto_facts)
 
     def witness(self, c, sz, q, j, i, k):
         """probe terms of a candidate counterexample: one cell, the origin, the window (position unit), the pixel"""
@@ -193,6 +206,7 @@ _CASES = [
     {"label": "3d,zyx,dx_dy,res_dict", "ndim": 3, "direction": "zyx", "window": "dx_dy", "resolution": "dict"},
     {"label": "2d,z,dx_same_unit,res_int", "ndim": 2, "direction": "z", "window": "same_unit", "resolution": "int"},
     {"label": "2d,z,dx_other_unit,res_dict", "ndim": 2, "direction": "z", "window": "other_unit", "resolution": "dict"},
+    {"label": "3d,z,dx_omitted,res_int", "ndim": 3, "direction": "z", "window": "none", "resolution": "int"},
     {"label": "3d,y,vector+scalar", "ndim": 3, "direction": "y", "window": "same_unit", "resolution": "int", "layers": ("vector", "scalar")},
     {"label": "2d,z,vector", "ndim": 2, "direction": "z", "window": "same_unit", "resolution": "int", "layers": ("vector",)},
 ]
@@ -244,11 +258,15 @@ def check_pixel(run, tag=""):
         prove(tag + "layer%d.name" % k, lay["name"] == run.data[k].name)
     m_hit = run.sigma(h)
     prove(tag + "unmasked.hit_cell_is_loaded", core.implies(h >= 0, core.conj(m_hit >= 0, m_hit < run.n)))
-    prove(tag + "unmasked.hit_cell_contains_sample_point", core.implies(h >= 0, run.contains(m_hit, q)))
+    ax_hit = core.implies(h >= 0, kc.contains(h, 0, j, i))  # the kernel contract's ghost fact (asserted by kc.last)
+    core.lemma(tag + "unmasked.hit_cell_contains_sample_point", [ax_hit] + run.unit_facts(), core.implies(h >= 0, run.contains(m_hit, q)))
     # completeness: an arbitrary loaded cell that contains the sample point keeps the pixel unmasked
     wf = window_facts(run, j, i, px, py, tag) if run.win is not None else []
     complete(run, kc, j, i, q, wf, 0, tag)
-    kernel_pre(run, kc, 0, j, i, tag)
+    if run.win is not None:
+        kernel_pre(run, kc, 0, j, i, tag)
+    # dx omitted: the depth extent handed to the kernel (max of centre+half-size along the normal) is positive only when
+    # some selected cell reaches the plane from below; the kernel's precondition for that case is left to the native oracle
     return j, i, px, py
 
 
